@@ -105,6 +105,8 @@ void explore11(Options const& o, std::vector<Shim*> const& shims, std::vector<Sh
       }
     rec.add_states(S.size() * 2, S.size() * 2, S.size() * 4);
     }
+    // two-call histories with aliased arguments (oddness is a relation to another call and is neutralised here)
+    sweep_alias_histories(s, U_ATAN, -LIM47 + 1, LIM47 - 1, rec, ob | (4ull << 52), [&](i64 x, i64 got, u64 ord, HistViol& hv) { c.atan1(s, x, got, -got, ord, hv); });
     sweep_pairs(s, B_ATAN2, P, P, o.threads, rec, ob | (2ull << 52), [&](i64 y, i64 x, i64 got, u64 ord, LocalViol& lv) { c.atan2(s, y, x, got, ord, lv); });
     {
     const size_t B = 4096; size_t nb = (grid.size() + B - 1) / B;
@@ -126,7 +128,7 @@ void explore11(Options const& o, std::vector<Shim*> const& shims, std::vector<Sh
 void replay11(Options const& o, Shim* s, Recorder& rec)
   {
   C11 c(rec); DirectViol d{rec};
-  if( o.rcase == "atan" ) { i64 x = parse_i64(o.rin.at(0)); c.atan1(s, x, s->fm_un(U_ATAN, x), s->fm_un(U_ATAN, -x), 0, d); }
+  if( o.rcase == "atan" ) { i64 x = parse_i64(o.rin.at(0)); i64 g = s->fm_un(U_ATAN, x); i64 gn = s->fm_un(U_ATAN, -x); c.atan1(s, x, g, gn, 0, d); }     // f(x) first: it may be the second call of a recorded history
   else if( o.rcase == "mono" )
     { // monotonicity counterexample: the pair (earlier_x <= x) is re-evaluated
     i64 x = parse_i64(o.rin.at(0)), xe = parse_i64(o.rin.at(1));
